@@ -12,6 +12,7 @@ import Hw.Topo.RestrictWF
 import Hw.Topo.RestrictSurvive
 import Hw.Topo.RestrictMerge
 import Hw.Topo.RenderTop
+import Hw.Topo.RenderCounts
 import Hw.Attr.MemAttrsState
 namespace Hw.Props.C08
 open Hw.Topo Hw.Topo.Restrict Hw.Gen.Restrict
@@ -269,8 +270,9 @@ example : okT demoMerge.tree = true ∧ (restrict demoMerge ⟨1, false⟩ (flag
             special-list-links (here); no-children-where-forbidden (C08_render_no_children, needs PUs to be leaves); depth-by-type, depth-increases, in-its-level (incl. both cousin
             links), nobjs, levels-listed, level-entries-valid, levels-in-tree-order, normal-levels-nonempty, depth-le-objects,
             level0-is-root (for a Machine root) (C08_render_levels, which also needs the root to be a normal object).
-    NOT proved (still judged by the oracle wfCheck on every AFTER dump): children-counts (the mkAux fold),
-            and the topology-level clauses levels-cover-objects, normal-level-types, type-depth-inverse, level0-is-root, pu-level-deepest, numa-exists, root-is-machine,
+    Proved further below (A8): children-counts (C08_render_children_counts), root-is-machine and numa-exists (C08_render_top).
+    NOT proved (still judged by the oracle wfCheck on every AFTER dump): the topology-level clauses levels-cover-objects,
+            normal-level-types, type-depth-inverse, pu-level-deepest,
             machine-only-at-root; and every clause about sets / memory / attributes that is not a link (sets-presence,
             cpuset-is-disjoint-union-of-children, memory-child-shares-cpuset, memcache-nodeset, nodeset-decomposition,
             pu-allowed, numa-allowed, total-memory, cache-attrs, group-depth, siblings-ordered, *-unique, allowed-sets,
@@ -632,18 +634,28 @@ theorem C08_render_top (t : Tree) (h : Hdr) (ex : RObj → Extra) :
     ((∃ x ∈ objsT t, x.type = tNUMA) → topClause "numa-exists" (render t h ex) (mkAux (render t h ex)) = true) :=
   ⟨fun hm => render_root_is_machine t hm h ex, fun hn => render_numa_exists t hn h ex⟩
 
+/-- (4) **children-counts** for the rendering of ANY typed tree: for every object the number of objects of each kind (normal,
+    memory, I/O, Misc) whose parent it is — the four counters that `mkAux` folds over the object list — equals its arity,
+    memory_arity, io_arity, misc_arity -/
+theorem C08_render_children_counts (t : Tree) (ht : typedT t = true) (h : Hdr) (ex : RObj → Extra) (o : Obj)
+    (ho : o ∈ (render t h ex).objs) :
+    objClause "children-counts" (render t h ex) (mkAux (render t h ex)) o = true :=
+  render_children_counts t ht h ex o ho
+
 /-- (4) **C08_restrict_wf_partial**: for an input whose tree is typed, has PUs as leaves, a Machine root and is `mergeSafe` (all
     consequences of WF except gp-distinctness of the TREE, which the driver evaluates; see C08_wf_implies_okT), the topology
     after ANY restrict call — with NO hypothesis on the result — satisfies, besides the 7 link clauses of C08_restrict_links and
-    the 9 level clauses of C08_restrict_levels: no-children-where-forbidden (every object), root-is-machine and level0-is-root.
+    the 9 level clauses of C08_restrict_levels: no-children-where-forbidden and children-counts (every object), root-is-machine
+    and level0-is-root.
     Named _partial because the full `WF (afterDump …)` is not reached: still judged by wfCheck on the real AFTER dump are
-    children-counts, levels-cover-objects, normal-level-types, type-depth-inverse, pu-level-deepest, machine-only-at-root,
+    levels-cover-objects, normal-level-types, type-depth-inverse, pu-level-deepest, machine-only-at-root,
     numa-exists (reduced to the survival of one NUMA node: C08_restrict_numa_exists) and the set / memory / attribute clauses
     other than the proved set statements (SetsOK, PU / NUMA singletons, exactness). -/
 theorem C08_restrict_wf_partial (t : Topo) (flagsT : Nat) (s : CSet) (flags : Nat) (ex : RObj → Extra)
     (ht : typedT t.tree = true) (hm : t.tree.obj.type = tMACHINE) (hl : puLeafT t.tree = true) (hs : mergeSafe t) :
     (∀ o ∈ (afterDump t flagsT s flags ex).objs,
-      objClause "no-children-where-forbidden" (afterDump t flagsT s flags ex) (mkAux (afterDump t flagsT s flags ex)) o = true) ∧
+      objClause "no-children-where-forbidden" (afterDump t flagsT s flags ex) (mkAux (afterDump t flagsT s flags ex)) o = true ∧
+      objClause "children-counts" (afterDump t flagsT s flags ex) (mkAux (afterDump t flagsT s flags ex)) o = true) ∧
     topClause "root-is-machine" (afterDump t flagsT s flags ex) (mkAux (afterDump t flagsT s flags ex)) = true ∧
     topClause "level0-is-root" (afterDump t flagsT s flags ex) (mkAux (afterDump t flagsT s flags ex)) = true := by
   have hr : isNormal t.tree.obj.type = true := by rw [hm]; decide
@@ -651,7 +663,8 @@ theorem C08_restrict_wf_partial (t : Topo) (flagsT : Nat) (s : CSet) (flags : Na
   have h2 := restrict_leaf_root t s flags ht hr hl hs
   have hm' : (restrict t s flags).1.tree.obj.type = tMACHINE := by
     have := congrArg RObj.type h2.2.1; exact this.trans hm
-  exact ⟨fun o ho => C08_render_no_children _ h1.1 h2.1 _ ex o ho, render_root_is_machine _ hm' _ ex,
+  exact ⟨fun o ho => ⟨C08_render_no_children _ h1.1 h2.1 _ ex o ho, render_children_counts _ h1.1 _ ex o ho⟩,
+    render_root_is_machine _ hm' _ ex,
     render_level0_is_root _ hm' _ ex⟩
 
 /-- (4) numa-exists after a successful restrict, reduced to one protected NUMA node of the input: by cpuset a NUMA node that is
